@@ -46,7 +46,14 @@ Inductive sop :=
 | OLen                               (* len(s) *)
 | OCStr                              (* c_str(s) *)
 | OHash                              (* hash(s) *)
-| OPrint (pos : nat) (ps : list piece).  (* print_to(s, pos, fmt, args...) *)
+| OPrint (pos : nat) (ps : list piece)   (* print_to(s, pos, fmt, args...) *)
+(* the String itself as the argument *)
+| OAssignSelf                        (* assign(s, s) *)
+| OConcatSelf                        (* concat(s, s) / append(s, s) *)
+| ORemSelf                           (* rem(s, s) *)
+| OMemSelf                           (* mem(s, s) *)
+| OCmpSelf                           (* cmp(s, s) *)
+| OEqSelf.                           (* eq(s, s) *)
 
 (* ------------------------------------------------------------------ list helpers *)
 
@@ -167,6 +174,11 @@ Section Model.
   Variable format_alloc : nat -> nat -> nat.      (* ... String_Format_To, of pos, size *)
   Variable rem_count : Z -> Z -> Z -> Z.          (* memmove count in String_Rem, of strlen(self), strlen(pos), strlen(needle) *)
   Variable rem_checks : bool.                     (* String_Rem throws ValueError when strstr returns NULL *)
+  (* true: String_Assign / String_Concat take the argument's length first and copy from
+     c_str(obj) as it is AFTER the realloc (memmove / memcpy + terminator);
+     false: strcpy(s->val, val) with val fetched before the realloc / strcat(s->val, c_str(obj)) *)
+  Variable assign_self_safe : bool.
+  Variable concat_self_safe : bool.
 
   (* String_New(self, args) with one argument: val = NULL, then String_Assign *)
   (* String_Assign: val = realloc(val, strlen(v)+1); strcpy(val, v) *)
@@ -175,17 +187,45 @@ Section Model.
 
   Definition m_new (v : list byte) : option buffer := m_assign [] v.
 
-  (* String_Concat: val = realloc(val, strlen(val)+strlen(v)+1); strcat(val, v) *)
+  (* assign(s, s).  New shape: n = strlen(c_str(obj)); val = realloc(val, n+1);
+     memmove(val, c_str(obj), n+1) with c_str(obj) = the new val.
+     Old shape: val fetched before the realloc and read by strcpy after it — the block may have
+     moved (use after free), and strcpy on identical pointers is an overlapping copy: undefined *)
+  Definition m_assign_self (b : buffer) : option buffer :=
+    if assign_self_safe then
+      match c_strlen b with
+      | None => None
+      | Some n => memmove (realloc b (assign_alloc n)) 0 0 (n + 1)
+      end
+    else None.
+
+  (* String_Concat.  New shape: n = strlen(val); m = strlen(v); val = realloc(val, n+m+1);
+     memcpy(val+n, v, m); val[n+m] = 0.   Old shape: realloc(..); strcat(val, v) *)
   Definition m_concat (b : buffer) (v : list byte) : option buffer :=
     match c_strlen b with
     | None => None
     | Some n =>
         let b' := realloc b (concat_alloc n (length v)) in
-        match c_strlen b' with              (* strcat looks for the terminator itself *)
-        | None => None
-        | Some n' => write b' n' (v ++ [0])
-        end
+        if concat_self_safe then write b' n (v ++ [0])
+        else match c_strlen b' with              (* strcat looks for the terminator itself *)
+             | None => None
+             | Some n' => write b' n' (v ++ [0])
+             end
     end.
+
+  (* concat(s, s).  New shape: the source is the String's own (new) buffer, first n bytes.
+     Old shape: strcat(val, val) overwrites the terminator it is looking for: undefined *)
+  Definition m_concat_self (b : buffer) : option buffer :=
+    if concat_self_safe then
+      match c_strlen b with
+      | None => None
+      | Some n =>
+          match memmove (realloc b (concat_alloc n n)) n 0 n with
+          | None => None
+          | Some b' => write b' (n + n) [0]
+          end
+      end
+    else None.
 
   (* String_Resize: m = strlen; realloc(n+1); n > m ? memset(val+m, 0, n-m) : val[n] = 0 *)
   Definition m_resize (b : buffer) (n : nat) : option buffer :=
@@ -249,6 +289,14 @@ Section Model.
                        | Some (b', p) => (b', SNat p)
                        | None => (b, SCrash)
                        end
+    | OAssignSelf => lift b (m_assign_self b)
+    | OConcatSelf => lift b (m_concat_self b)
+    (* rem/mem/cmp/eq with the String itself: the argument is read in place, nothing moves
+       before the last read *)
+    | ORemSelf => match c_str b with Some h => m_rem b h | None => (b, SCrash) end
+    | OMemSelf => obs b (fun h => SBool (match find_sub h h with Some _ => true | None => false end))
+    | OCmpSelf => obs b (fun h => SSign (str_compare h h))
+    | OEqSelf => obs b (fun h => SBool (match str_compare h h with Eq => true | _ => false end))
     end.
 
   (* a history: stops at the first crash (nothing is defined after undefined behaviour) *)
@@ -297,6 +345,12 @@ Definition spec_step (s : list byte) (o : sop) : list byte * sout :=
   | OCStr => (s, SChars s)
   | OHash => (s, SHash (murmur64 s))
   | OPrint pos ps => (spec_print s pos ps, SNat (pos + length (concat (map render ps))))
+  | OAssignSelf => (s, SUnit)
+  | OConcatSelf => (s ++ s, SUnit)
+  | ORemSelf => ([], SUnit)
+  | OMemSelf => (s, SBool true)
+  | OCmpSelf => (s, SSign Eq)
+  | OEqSelf => (s, SBool true)
   end.
 
 Fixpoint spec_run (s : list byte) (ops : list sop) : list sout * list byte :=
